@@ -4,7 +4,9 @@
 //
 //	float / signed path, and the `ca = 0` on error of the signed path).
 //
-// run: stream A `(cmp ty a b)`: real sql.Type.Compare on value pairs of the modelled types (10 integer types, DECIMAL,
+// run: stream T (temporal.go) `(tcmp ty a b)`: real datetimeType.Compare vs. the Lean model Gms/Model/TimeCmp.lean.
+//
+//	stream A `(cmp ty a b)`: real sql.Type.Compare on value pairs of the modelled types (10 integer types, DECIMAL,
 //
 //	YEAR, BIT) vs. the Lean Impl model; Spec = NULL first, then compare after Convert.
 //	stream B `(laws …)`: triples of values of every type (also strings per collation, binary, date/time, float, enum,
@@ -147,6 +149,9 @@ func extract(a hx.ExtractArgs) error {
 	}
 	fmt.Fprintf(&b, "\n/-- `Compare` of DECIMAL, YEAR, BIT: (receiver, [conversion of a and its error branch, the same for b, the `if cond => statement` ladder in source order, last statement]) -/\n")
 	fmt.Fprintf(&b, "def compareShapes : List (String × List String) := [\n  %s]\n", strings.Join(shapes, ",\n  "))
+	if err := extractTemporal(a, &b); err != nil {
+		return err
+	}
 	b.WriteString("\nend Gms.Generated.C26\n")
 	return os.WriteFile(a.Out, []byte(b.String()), 0o644)
 }
@@ -390,6 +395,9 @@ type lty struct {
 	name string
 	t    sql.Type
 	gen  func(r *hx.Rand) (interface{}, string)
+	// rank (optional): the position of a generated value in the order the type's converted values have, as an integer,
+	// when that is known independently of the code under test (reference.go); "-" otherwise
+	rank func(v interface{}, desc string) string
 }
 
 func lawTypes() []lty {
@@ -403,9 +411,9 @@ func lawTypes() []lty {
 		return v.gov, v.payload()
 	}
 	for _, m := range modelledTypes() {
-		out = append(out, lty{m.payload, m.t, num})
+		out = append(out, lty{name: m.payload, t: m.t, gen: num})
 	}
-	out = append(out, lty{"float64", types.Float64, num}, lty{"float32", types.Float32, num})
+	out = append(out, lty{name: "float64", t: types.Float64, gen: num, rank: rankFloat64}, lty{name: "float32", t: types.Float32, gen: num})
 	words := []string{"", "a", "A", "b", "B", "ab", "aB", "Ab", "abc", "á", "Á", "ä", "z", "Z", "a ", "a  ", " a", "ß", "ss", "0", "10", "9", "é", "e", "E", "é", "é", "😀", "ÿ"}
 	str := func(r *hx.Rand) (interface{}, string) {
 		if r.Chance(1, 12) {
@@ -423,10 +431,10 @@ func lawTypes() []lty {
 	}
 	for _, c := range []sql.CollationID{sql.Collation_utf8mb4_0900_bin, sql.Collation_utf8mb4_0900_ai_ci, sql.Collation_utf8mb4_general_ci, sql.Collation_utf8mb4_unicode_ci,
 		sql.Collation_latin1_swedish_ci, sql.Collation_utf8mb4_bin, sql.Collation_utf8mb3_general_ci, sql.Collation_ascii_general_ci} {
-		out = append(out, lty{"varchar:" + c.Name(), types.MustCreateString(sqltypes.VarChar, 40, c), str})
+		out = append(out, lty{name: "varchar:" + c.Name(), t: types.MustCreateString(sqltypes.VarChar, 40, c), gen: str})
 	}
-	out = append(out, lty{"text", types.Text, str})
-	out = append(out, lty{"varbinary", types.MustCreateBinary(sqltypes.VarBinary, 40), func(r *hx.Rand) (interface{}, string) {
+	out = append(out, lty{name: "text", t: types.Text, gen: str})
+	out = append(out, lty{name: "varbinary", t: types.MustCreateBinary(sqltypes.VarBinary, 40), gen: func(r *hx.Rand) (interface{}, string) {
 		if r.Chance(1, 12) {
 			return nil, "null"
 		}
@@ -437,7 +445,8 @@ func lawTypes() []lty {
 		return s, "s:" + s
 	}})
 	times := []string{"2020-01-02 03:04:05", "2020-01-02", "1000-01-01 00:00:00", "9999-12-31 23:59:59", "2020-01-02 03:04:05.123456", "2020-01-02 03:04:06", "2019-12-31 23:59:59",
-		"1970-01-01 00:00:01", "2038-01-19 03:14:07", "2020-02-29", "2021-02-28 12:00:00", "2020-01-02 00:00:00"}
+		"1970-01-01 00:00:01", "2038-01-19 03:14:07", "2020-02-29", "2021-02-28 12:00:00", "2020-01-02 00:00:00",
+		"0001-01-01", "1500-06-15", "1677-09-21 00:12:43", "2262-04-11 23:47:17", "2500-06-15 08:00:00", "5000-01-01"}
 	dt := func(r *hx.Rand) (interface{}, string) {
 		if r.Chance(1, 12) {
 			return nil, "null"
@@ -457,11 +466,16 @@ func lawTypes() []lty {
 		}
 		return s, "s:" + s
 	}
-	out = append(out, lty{"datetime", types.Datetime, dt}, lty{"datetime6", types.DatetimeMaxPrecision, dt}, lty{"date", types.Date, dt}, lty{"timestamp", types.Timestamp, dt})
+	out = append(out, lty{name: "datetime", t: types.Datetime, gen: dt}, lty{name: "datetime6", t: types.DatetimeMaxPrecision, gen: dt}, lty{name: "date", t: types.Date, gen: dt},
+		lty{name: "timestamp", t: types.Timestamp, gen: dt})
 	spans := []string{"00:00:00", "12:34:56", "-12:34:56", "838:59:59", "-838:59:59", "00:00:01", "23:59:59.5", "1:2:3", "100", "1234", "-1"}
-	out = append(out, lty{"time", types.Time, func(r *hx.Rand) (interface{}, string) {
+	out = append(out, lty{name: "time", t: types.Time, rank: rankTime, gen: func(r *hx.Rand) (interface{}, string) {
 		if r.Chance(1, 12) {
 			return nil, "null"
+		}
+		if r.Chance(1, 3) { // a Timespan value (microseconds), around a boundary of every coarser unit
+			us := hx.Pick(r, timespanBases) + int64(r.Intn(3)-1)
+			return types.Timespan(us), fmt.Sprintf("ts:%d", us)
 		}
 		if r.Chance(1, 5) {
 			x := int64(r.Intn(240000) - 120000)
@@ -470,7 +484,7 @@ func lawTypes() []lty {
 		s := hx.Pick(r, spans)
 		return s, "s:" + s
 	}})
-	out = append(out, lty{"enum", types.MustCreateEnumType([]string{"a", "b", "c", ""}, sql.Collation_utf8mb4_0900_ai_ci), func(r *hx.Rand) (interface{}, string) {
+	out = append(out, lty{name: "enum", rank: rankEnum, t: types.MustCreateEnumType([]string{"a", "b", "c", ""}, sql.Collation_utf8mb4_0900_ai_ci), gen: func(r *hx.Rand) (interface{}, string) {
 		if r.Chance(1, 12) {
 			return nil, "null"
 		}
@@ -481,7 +495,7 @@ func lawTypes() []lty {
 		s := hx.Pick(r, []string{"a", "b", "c", "", "A", "d", "B"})
 		return s, "s:" + s
 	}})
-	out = append(out, lty{"set", types.MustCreateSetType([]string{"a", "b", "c"}, sql.Collation_utf8mb4_0900_ai_ci), func(r *hx.Rand) (interface{}, string) {
+	out = append(out, lty{name: "set", rank: rankSet, t: types.MustCreateSetType([]string{"a", "b", "c"}, sql.Collation_utf8mb4_0900_ai_ci), gen: func(r *hx.Rand) (interface{}, string) {
 		if r.Chance(1, 12) {
 			return nil, "null"
 		}
@@ -495,7 +509,7 @@ func lawTypes() []lty {
 	jsons := []interface{}{nil, true, false, float64(1), float64(2), float64(-1), float64(1.5), "a", "b", "", "A", []interface{}{}, []interface{}{float64(1)}, []interface{}{float64(1), float64(2)},
 		[]interface{}{"a"}, map[string]interface{}{}, map[string]interface{}{"a": float64(1)}, map[string]interface{}{"a": float64(2)}, map[string]interface{}{"b": float64(1)},
 		map[string]interface{}{"a": float64(1), "b": float64(2)}, float64(10), "10"}
-	out = append(out, lty{"json", types.JSON, func(r *hx.Rand) (interface{}, string) {
+	out = append(out, lty{name: "json", t: types.JSON, gen: func(r *hx.Rand) (interface{}, string) {
 		if r.Chance(1, 12) {
 			return nil, "null"
 		}
@@ -512,7 +526,11 @@ func run(a hx.RunArgs) error {
 	defer out.Close()
 	out.Rule = "cmp: real sql.Type.Compare on pairs of Go values (nil, signed and unsigned Go integers of every width, *apd.Decimal incl. half-way and beyond-64-bit " +
 		"values, numeric/malformed strings) under each modelled type (10 integer types, DECIMAL(p,s) column and non-column, YEAR, BIT(1/8/17/64)); " +
-		"laws: triples of values under every type incl. strings per collation, binary, date/time, float, enum, set, JSON — the nine pairwise results; " +
+		"tcmp: real datetimeType.Compare under DATE, DATETIME(0/3/6), TIMESTAMP(0/6) on pairs of nil, time.Time (UTC or fixed zone, years -50..10050), strings in nine layouts " +
+		"(valid dates of the whole range 0000..9999, impossible dates), zero representations, integers, unparseable strings; boundary ladder (ends of the SQL, TIMESTAMP, " +
+		"int64-nanosecond and 32-bit-second ranges) and neighbours at every precision step / counter wrap-around period; " +
+		"laws: triples of values under every type incl. strings per collation, binary, date/time, float, enum, set, JSON — the nine pairwise results, and for TIME, ENUM, SET, DOUBLE " +
+		"the reference rank of each value where it is known independently (microseconds, member index, bit mask, exact number); " +
 		"a case is non-trivial when both values are non-NULL and differ in representation or value"
 	r := hx.NewRand(a.Seed).Fork() // Fork: hx.NewRand(seed+1) is hx.NewRand(seed) shifted by one draw
 	nA, nB := 6000, 1500
@@ -556,6 +574,8 @@ func run(a hx.RunArgs) error {
 		}
 	}
 
+	runTemporal(a, out, r.Fork())
+
 	for _, lt := range lawTypes() {
 		for k := 0; k < nB; k++ {
 			var gv [3]interface{}
@@ -579,7 +599,21 @@ func run(a hx.RunArgs) error {
 				}
 			}
 			obs := strings.Join(res, " ")
-			payload := hx.List("laws", hx.HexS(lt.name), "n"+nulls, obs, hx.HexS(strings.Join(ds[:], " | ")))
+			items := []string{"laws", hx.HexS(lt.name), "n" + nulls, obs, hx.HexS(strings.Join(ds[:], " | "))}
+			if lt.rank != nil { // the order the converted values have, where known without the code under test
+				rk := []string{"ranks"}
+				for i := range gv {
+					rk = append(rk, "-")
+					if gv[i] != nil {
+						rk[len(rk)-1] = lt.rank(gv[i], ds[i])
+					}
+					if rk[len(rk)-1] != "-" {
+						out.Stat("laws-ranked-value:" + lt.name)
+					}
+				}
+				items = append(items, hx.List(rk...))
+			}
+			payload := hx.List(items...)
 			out.Case(payload, obs, nulls == "000" && ds[0] != ds[1] && ds[1] != ds[2])
 			out.Stat("laws:" + strings.SplitN(lt.name, ":", 2)[0])
 		}
